@@ -34,7 +34,7 @@ import core
 from ser import rat, q
 
 LEAN_MODULE = "Optyx.Props.C09b"
-EXTRA_MODULES = ["Optyx.Props.PinsC09", "Optyx.Props.BuildTie", "Optyx.Props.ClosurePathTie", "Optyx.Props.SymbolicJacTie", "Optyx.Props.CompileEntryTie"]   # transcription anchors (harness/source_pins.py)
+EXTRA_MODULES = ["Optyx.Props.PinsC09", "Optyx.Props.BuildTie", "Optyx.Props.ClosurePathTie", "Optyx.Props.SymbolicJacTie", "Optyx.Props.CompileEntryTie", "Optyx.Props.ScaledTie"]   # transcription anchors (harness/source_pins.py)
 THEOREMS = [
     "Optyx.Props.C09b.scipy_inputs_faithful",
     "Optyx.Props.C09b.compiled_pair_faithful",
@@ -64,6 +64,9 @@ THEOREMS = [
     "Optyx.Props.SymbolicJacTie.computeHessian_eq",
     "Optyx.Props.CompileEntryTie.compileExpression_eq",
     "Optyx.Props.CompileEntryTie.param_run",
+    "Optyx.Props.ScaledTie.scaledEntry_eq",
+    "Optyx.Props.ScaledTie.scaledLoop_step",
+    "Optyx.Props.ScaledTie.scaledPattern_frame",
     "Optyx.Props.PinsC09.anchors",
 ]
 ASSUMPTIONS = [
